@@ -25,6 +25,7 @@ import (
 	"github.com/tuneinsight/lattigo/v6/core/rlwe"
 	"github.com/tuneinsight/lattigo/v6/multiparty"
 	"github.com/tuneinsight/lattigo/v6/ring"
+	"github.com/tuneinsight/lattigo/v6/ring/ringqp"
 	"github.com/tuneinsight/lattigo/v6/utils"
 	"github.com/tuneinsight/lattigo/v6/utils/sampling"
 )
@@ -379,6 +380,80 @@ func c14CRSDeterminism(c *Ctx, set c14Set) {
 			c.Count("crs_other_sequence_differs")
 		}
 	}
+}
+
+// c14CRSTie: the reference polynomials as a function of the CRS bytes.  A twin generator with the
+// same key provides the byte stream; the model replays the samplers (fresh 1024-byte buffers per
+// SampleCRP, rejection sampling under the per-prime mask) and also predicts the CRS position, checked
+// through the next 8 bytes read from the real CRS after the calls.
+func c14CRSTie(c *Ctx, set c14Set) {
+	params := set.params
+	key := c.rng.Bytes(32)
+	crs, _ := sampling.NewKeyedPRNG(key)
+	twin, _ := sampling.NewKeyedPRNG(key)
+	cfgs := c14EvkConfigs(set)
+	ckg := multiparty.NewPublicKeyGenProtocol(params)
+	evkg := multiparty.NewEvaluationKeyGenProtocol(params)
+	rkg := multiparty.NewRelinearizationKeyGenProtocol(params)
+	gkg := multiparty.NewGaloisKeyGenProtocol(params)
+	cks, _ := multiparty.NewKeySwitchProtocol(params, ring.DiscreteGaussian{Sigma: 3.2, Bound: 19.2})
+	var reqs, polys []string
+	total := 0
+	qpRaw := func(m [][]ringqp.Poly) {
+		for i := range m {
+			for j := range m[i] {
+				rows := RawRows(m[i][j].Q)
+				if m[i][j].P.Level() >= 0 {
+					rows = append(rows, RawRows(m[i][j].P)...)
+				}
+				polys = append(polys, Mat(rows))
+				total += len(rows)
+			}
+		}
+	}
+	for i := 0; i < c.Scale(3, 5); i++ {
+		cfg := cfgs[c.rng.Intn(len(cfgs))]
+		kind := c.rng.Intn(5)
+		switch kind {
+		case 0:
+			crp := ckg.SampleCRP(crs)
+			reqs = append(reqs, Vec(set.qs(set.maxQ()))+" "+Vec(set.ps(set.maxP()))+" 1")
+			qpRaw([][]ringqp.Poly{{crp.Value}})
+		case 4:
+			crp := cks.SampleCRP(cfg.lq, crs)
+			reqs = append(reqs, Vec(set.qs(cfg.lq))+" - 1")
+			polys = append(polys, Mat(RawRows(crp.Value)))
+			total += cfg.lq + 1
+		default:
+			var m [][]ringqp.Poly
+			switch kind {
+			case 1:
+				m = evkg.SampleCRP(crs, cfg.params()).Value
+			case 2:
+				m = rkg.SampleCRP(crs, cfg.params()).Value
+			default:
+				m = gkg.SampleCRP(crs, cfg.params()).Value
+			}
+			cnt := 0
+			for _, r := range m {
+				cnt += len(r)
+			}
+			reqs = append(reqs, Vec(set.qs(cfg.lq))+" "+Vec(set.ps(cfg.lp))+" "+I(cnt))
+			qpRaw(m)
+		}
+	}
+	next := make([]byte, 8)
+	_, _ = crs.Read(next)
+	var nx uint64
+	for _, b := range next {
+		nx = nx<<8 | uint64(b)
+	}
+	// generous prefix of the stream: rejection rate < 1/2 per draw, one partial buffer per sampler and call
+	nbytes := ((total*set.n*8*4)/1024 + 4*len(reqs) + 8) * 1024
+	stream := make([]byte, nbytes)
+	_, _ = twin.Read(stream)
+	c.Emit("crs "+I(set.n)+" "+I(len(reqs))+" "+strings.Join(reqs, " ")+" "+Hex(stream), strings.Join(polys, "|")+" "+U(nx))
+	c.Count("crs_tie")
 }
 
 // ---------------------------------------------------------------------------------------------
